@@ -347,7 +347,51 @@ def c01(prop, tier, seed, work):
              stores=["mem", "dir"], obs=["sess"]),
     ]
     return histories(prop, tier, seed, work, scs, "", "a history is non-trivial if it completes at least one upload with PUT or pushes a manifest; distinct = distinct operation sequences",
-                     {"UpPut", "ManPut"})
+                     {"UpPut", "ManPut"}, extras=[c01_sessconc])
+
+
+# requests that meet on ONE upload session (setup s4: an open session that holds all of b4): the closing PUT (by the digest
+# of the session's algorithm or of another one, which makes Verify rescan) racing with further chunks, status queries,
+# cancellation and a second PUT.  No property pins the order the session sees them in, C01 pins what may be served afterwards.
+SESS_EPISODES = [
+    ("s4", [("UpPut", "b4", "sha512"), ("UpPatch", "b3")]), ("s4", [("UpPut", "b4", "sha256"), ("UpPatch", "b3")]),
+    ("s4", [("UpPut", "b4", "sha256"), ("UpPatch", "b3"), ("UpPatch", "b3")]), ("s4", [("UpPut", "b4", "sha512"), ("UpPatch", "b3"), ("UpGet",)]),
+    ("s4", [("UpPut", "b4", "sha256"), ("UpDel",)]), ("s4", [("UpPut", "b4", "sha256"), ("UpPut", "b4", "sha512")]),
+    ("s4", [("UpPatch", "b3"), ("UpPatch", "b3"), ("UpDel",)]),
+    ("s4", [("UpPut", "b4", "sha256"), ("UpPatch", "b3"), ("UpPatch", "b3"), ("UpPatch", "b3")]),
+    ("s4", [("UpPut", "b4", "sha512"), ("UpPatch", "b3"), ("UpPatch", "b3"), ("UpPatch", "b3")]),
+]
+
+
+def c01_sessconc(work, prop, tier, seed):
+    """C01 under concurrency: requests racing on one upload session, gated random interleavings of their store calls (Write,
+    Verify, Close, Cancel of the session) and ungated bursts; TLC (TraceLin!ConcInteg) accepts a run iff everything served
+    afterwards hashes to its digest and no request panicked or hung."""
+    quick = tier == "quick"
+    vh = vlib.build_harness(work)
+    eps = [dict(free_episode(s, r), integ=True) for s, r in SESS_EPISODES]
+    x = conc_run(work, vh, eps, "sess", "mem,dir", 6 if quick else 25, seed, burst=12 if quick else 60)
+    log("session episodes: %d episodes, %d runs, %d rejected, %d hung (exec %.1fs, tlc %.1fs)" % (len(eps), x["runs"], len(x["rejected"]), x["hung"], x["exec"], x["tlc"]))
+    for f in x["v"]["fails"]:
+        raise Inconclusive("the sequential setup of a session episode was not accepted: %s" % json.dumps(f)[:600])
+    violations, seen = [], set()
+    for e in x["rejected"]:
+        ep = dict(e["episode"], burst=40, cold=e["cold"]) if e["burst"] else dict(e["episode"], order=e["played"])
+        key = json.dumps([e["store"], e["burst"], e["episode"]["reqs"]], sort_keys=True)
+        if key in seen:
+            continue
+        seen.add(key)
+        o = e["obs"]["r1"]
+        path = vlib.save_replay(prop, "sess-" + e["id"], {"property": prop, "kind": "conc", "episode": ep, "store": e["store"], "seed": seed,
+                                                          "ops": [{"op": q["op"], "status": q["resp"]["status"], "calls": q["calls"]} for q in e["ops"]],
+                                                          "served_with_wrong_hash": {"blobs": o["blobsbad"], "manifests": o["mansbad"], "tags": o["tagsbad"]}, "hung": e["hung"]})
+        violations.append((path, {"trace": "%s@%s" % (e["id"], e["store"]), "i": e["i"], "op": "+".join(q["op"]["op"] for q in e["ops"]),
+                                  "clauses": ["integrity"] if (o["blobsbad"] or o["mansbad"] or o["tagsbad"]) else
+                                  ["acked"] if any(q["op"]["op"] == "UpPut" and q["resp"]["status"] == 201 and q["op"]["dig"] not in o["blobs"] for q in e["ops"]) else ["noerr"]}))
+    return {"violations": violations, "events": x["v"]["stats"]["events"], "traces": x["runs"],
+            "note": "%d episodes of requests racing on one upload session (closing PUT by a digest of the session's or of another algorithm, further chunks, status, "
+                    "cancellation), %d runs on mem and dir (seeded random interleavings of the session's store calls through the blocking tap, and ungated bursts), judged by "
+                    "TraceLin!ConcInteg: everything served afterwards hashes to its digest, a closing PUT acknowledged with 201 has made its digest retrievable, no panic, no hang" % (len(eps), x["runs"])}
 
 
 CHECKS["C01"] = c01
